@@ -637,3 +637,56 @@ def read_format(ctx, P, rule="SCHEMA-READFORMAT"):
     ctx.ob(rule, "sequence_length|assign", n is not None, where, "self->sequence_length = L[0]")
     hits = F.calls_to("tsk_table_collection_set_file_uuid")
     ctx.ob(rule, "uuid|setter", any(a == ["self", "uuid"] for a, n_ in hits), where, "file uuid applied")
+
+
+# =============================================================================================
+DOMAIN_OK = {
+    ("simplifier_init_nodes", "self->tables->nodes.flags"): "under TSK_SIMPLIFY_NO_FILTER_NODES the output node table is a row-for-row copy of the input",
+    ("tsk_treeseq_split_edges", "tables->mutations.node"): "`tables` is the freshly made copy of self->tables (same rows)",
+}
+_TBL = r"(individuals|nodes|edges|migrations|sites|mutations|populations|provenances)"
+
+
+def column_domain(ctx, P, rule="COLUMN-DOMAIN", tus=None, floor=55):
+    """A loop counter ranging over the rows of table T of collection X indexes only columns of X.T directly."""
+    from sa.cfront import LIB_TUS
+    from sa.expr import local_aliases
+    ctx.rule(rule, "a loop counter bounded by <X>.<table>.num_rows directly subscripts only columns of that same table of that "
+                   "same collection; reaching another table or another collection's rows goes through an id column or a mapping "
+                   "array (e.g. self->nodes.individual[other_node_mapping[k]], never self->nodes.individual[k] in a loop over other's nodes)")
+    n = 0
+    for key in (tus or LIB_TUS):
+        tu = P.tus[key]
+        for fn in tu.funcs.values():
+            al = None
+            for lp in walk(fn.body):
+                if lp.k != "ForStmt":
+                    continue
+                kids = lp.kids + [None] * (5 - len(lp.kids))
+                cond, body = strip(kids[2]), kids[4]
+                if cond is None or cond.k != "BinaryOperator" or cond.op != "<":
+                    continue
+                al = al or local_aliases(fn)
+                var = estr(cond.kids[0])
+                bound = xstr(cond.kids[1], al)
+                m = re.fullmatch(r"(.*?)[\.>]?%s\.num_rows" % _TBL, bound)
+                if not m:
+                    continue
+                owner, tbl = m.group(1).rstrip("-"), m.group(2)
+                for x in walk(body):
+                    if x.k == "ArraySubscriptExpr" and estr(x.kids[1]) == var:
+                        base = xstr(x.kids[0], al)
+                        mb = re.fullmatch(r"(.*?)[\.>]?%s\.(\w+)" % _TBL, base)
+                        if not mb:
+                            continue
+                        o2, t2, col = mb.group(1).rstrip("-"), mb.group(2), mb.group(3)
+                        ok = (t2 == tbl and o2 == owner)
+                        why = "%s[%s] inside a loop over %s" % (base, var, bound)
+                        if not ok and (fn.name, base) in DOMAIN_OK:
+                            ok, why = True, "exception: " + DOMAIN_OK[(fn.name, base)]
+                        elif not ok:
+                            why += ": `%s` counts rows of %s.%s, not of %s.%s" % (var, owner or "?", tbl, o2 or "?", t2)
+                        n += 1
+                        ctx.ob(rule, "%s|%s[%s]|%s" % (fn.name, base, var, bound), ok, tu.loc(x), why)
+    ctx.floor(rule, floor if tus is None else 1)
+    return n
